@@ -192,6 +192,11 @@ def check_property(pid, tier, seed):
     os.makedirs(os.path.join(BUILD, 'replay'), exist_ok=True)
     extract.reset_cache()
     units = [(u, registry.UNITS[u]) for u in pcfg['units'] if tier == 'thorough' or registry.UNITS[u].get('tier', 'quick') == 'quick']
+    if os.environ.get('VF_DEV_ONLY_UNITS'):
+        # development aid only (never set by a registered command): restrict the run to some units, skip run-time evaluation, write no evidence
+        only = os.environ['VF_DEV_ONLY_UNITS'].split(',')
+        units = [(u, c) for (u, c) in units if u in only]
+        pcfg = dict(pcfg, dynamic_assumptions=[], dynamic_contracts=[], replay=False)
     results = []
     # native replay binary: needed for dynamic assumption checks and witness search
     replay_info = None
@@ -414,7 +419,11 @@ def check_property(pid, tier, seed):
         wall_s=round(time.time() - t0, 1),
         violations=n_viol,
     )
-    json.dump(ev, open(os.path.join(VERIF, 'evidence', f'{pid}.json'), 'w'), indent=1)
+    if not os.environ.get('VF_DEV_ONLY_UNITS'):
+        json.dump(ev, open(os.path.join(VERIF, 'evidence', f'{pid}.json'), 'w'), indent=1)
+    else:
+        for r in results:
+            print('DEV', r['unit'], r['status'], r.get('reason'), 'verified_fns=', r.get('verified_fns'), 'canaries=', [(c['name'], c.get('killed', c.get('status'))) for c in (r.get('canaries') or [])])
     for l in lines:
         print(l)
     for u in undecided:
